@@ -202,6 +202,29 @@ theorem render_fails_iff (fmt : Str → Except Err Str) (env : Env) (compactF : 
     | error e' => simp
     | ok y => simp [pure, Except.pure]
 
+/-- **The hypotheses of `render_fails_iff` are checked on the real cases.**  The driver evaluates
+`framesOkB` on the frames of every rendered exception - with the REAL tokenizer's outcome on every
+file and line the renderer looks at - (entry `c20.wf`, key `frames_ok`, compared with `true`); it
+decides exactly the hypothesis about the frames. -/
+theorem frames_ok_decides (frames : List Frame) :
+    framesOkB frames = true ↔ ∀ f ∈ frames, FileOk f ∧ LineOk f := framesOkB_iff frames
+
+/-- The hypothesis `CompactSound` holds for the executable port `compact` of crashtest's
+`FrameCollection.compact` - the function the driver runs; its collections are compared with the real
+engine's on every case (entry `c20.wf`, key `compact`). -/
+theorem port_compact_sound : CompactSound compact := compact_sound
+
+/-- `render_fails_iff` for the port of `compact`, with the decider in place of the hypotheses: when
+`framesOkB frames` holds the markup is produced, and `render` fails with `e` iff the formatter fails
+with `e` on the first line it rejects. -/
+theorem render_fails_iff_decided (fmt : Str → Except Err Str) (env : Env) (simple utf8 : Bool) (verbosity : Nat)
+    (ignoreSet : Bool) (name msg : Str) (frames : List Frame) (e : Err) (hw : framesOkB frames = true) :
+    ∃ ls, renderMarkup env compact simple utf8 verbosity ignoreSet name msg frames = .ok ls ∧
+      (render fmt env compact simple utf8 verbosity ignoreSet name msg frames = .error e ↔
+        ∃ pre l post, ls = pre ++ l :: post ∧ (∀ x ∈ pre, ∃ y, fmt x = .ok y) ∧ fmt l = .error e) :=
+  (render_fails_iff fmt env compact simple utf8 verbosity ignoreSet name msg frames e).1 compact_sound
+    ((framesOkB_iff frames).mp hw)
+
 /-- For every token stream that satisfies the tokenizer contract `WF` (single-line tokens, in
 order, consecutive rows, `string = line[start:end]`, `line` = the physical line `phys row`,
 no newline before a token starts), the highlighted lines with the `<theme>…</>` tags
@@ -232,6 +255,22 @@ theorem lines_verbatim (env : Env) (phys : Nat → Str) (toks : List Tok) (h : W
     cases ty with
     | none => rfl
     | some th => exact ⟨rfl, unescape_escape t⟩
+
+/-- **The tokenizer contract is checked on the real token streams.**  The driver evaluates `wfB` on
+the REAL tokenizer's output for every source the renderer looks at, with `phys` = the `line`
+attribute the tokenizer reports for the row (`physOf`); a stream without multi-line tokens must
+satisfy it (entries `c20.split`, key `contract`: `wf` expected unless a token spans several rows). -/
+theorem contract_decides (env : Env) (phys : Nat → Str) (toks : List Tok) :
+    wfB env phys 1 0 toks = true ↔ WF env phys 1 0 toks := wfB_iff env phys toks 1 0
+
+/-- `lines_verbatim` with the decider in place of the contract, for the physical lines the tokenizer
+itself reports. -/
+theorem lines_verbatim_decided (env : Env) (toks : List Tok) (h : wfB env (physOf toks) 1 0 toks = true) :
+    (splitToLines env toks).map plainHL = expect env (physOf toks) 1 0 toks ∧
+    (∀ (i : Nat) (s : Str), ((splitToLines env toks).map plainHL)[i]? = some s →
+        ∃ k, s = rstripNL ((physOf toks (i + 1)).take k) ∨ s = (physOf toks (i + 1)).take k) :=
+  ⟨(lines_verbatim env _ toks ((wfB_iff env _ toks 1 0).mp h)).1,
+   (lines_verbatim env _ toks ((wfB_iff env _ toks 1 0).mp h)).2.1⟩
 
 /-- pastel's last step (`.replace("\\<", "<")`) gives the message back from its escaped
 form - for every message, also one that contains `\<` itself. -/
@@ -284,5 +323,36 @@ example : render (fun _ => .error .valueError) ⟨[], []⟩ compact true true 0 
       [{ file := [], ignored := false, lineno := 1, func := [], fileToks := .error (.other "TokenError"),
          lineText := [], lineToks := .ok [] }] = .error (.other "TokenError") := by
   constructor <;> rfl
+
+/-- Non-vacuity of `lines_verbatim_decided` / `contract_decides`: the decider accepts the demo stream
+(with the physical lines read from the stream itself), and `multiB` tells a stream with a
+multi-line token apart. -/
+example : wfB ⟨[], []⟩ (physOf demoToks) 1 0 demoToks = true ∧ multiB demoToks = false := by decide
+
+example : (splitToLines ⟨[], []⟩ demoToks).map plainHL = expect ⟨[], []⟩ (physOf demoToks) 1 0 demoToks :=
+  (lines_verbatim_decided ⟨[], []⟩ demoToks (by decide)).1
+
+/-- a frame of the demo source -/
+def demoFrame : Frame :=
+  { file := ['f', '.', 'p', 'y'], ignored := false, lineno := 1, func := ['g'], fileToks := .ok demoToks,
+    lineText := ['y'], lineToks := .ok demoToks }
+
+/-- Non-vacuity of `render_fails_iff_decided`, `render_fails_iff` (positive part) and `render_contains`:
+the decider accepts the demo frame, so the markup of the exception `E: a<b` raised there is produced, it
+contains the name line and the escaped message line, and with a formatter that accepts everything
+`render` does not fail. -/
+example : framesOkB [demoFrame] = true := by decide
+
+example : ∃ out, renderMarkup ⟨[], []⟩ compact false true 2 false ['E'] ['a', '<', 'b'] [demoFrame] = .ok out ∧
+    indentStr 2 (lit "<error>" ++ ['E'] ++ lit "</error>") ∈ out ∧
+    indentStr 2 (lit "<b>" ++ replaceNL (escape ['a', '<', 'b']) ++ lit "</b>") ∈ out ∧
+    render (fun s => .ok s) ⟨[], []⟩ compact false true 2 false ['E'] ['a', '<', 'b'] [demoFrame] ≠ .error .valueError := by
+  obtain ⟨ls, h, hiff⟩ := render_fails_iff_decided (fun s => .ok s) ⟨[], []⟩ false true 2 false ['E'] ['a', '<', 'b']
+    [demoFrame] .valueError (by decide)
+  have hc := (render_contains ⟨[], []⟩ compact true 2 false ['E'] ['a', '<', 'b'] [demoFrame]).1 ls (by simp) h
+  refine ⟨ls, h, hc.1, hc.2, ?_⟩
+  intro hf
+  obtain ⟨_, _, _, _, _, hl⟩ := hiff.mp hf
+  cases hl
 
 end Clikit.Props.C20
